@@ -39,6 +39,12 @@ pub mod pure {
     pub fn retirement_marker_token(sector: u64, marker: &[u8]) -> u16 {
         crate::storage::format::retirement_marker_token(sector, marker)
     }
+    /// H8: see `storage::io::verif_inflight_sim`.
+    #[cfg(target_os = "linux")]
+    pub fn inflight_sim(ops: &[(u8, usize)]) -> (Vec<bool>, Vec<bool>) {
+        crate::storage::io::verif_inflight_sim(ops)
+    }
+
     pub fn metadata_generation(metadata: &crate::storage::metadata::Metadata) -> u64 {
         metadata.generation()
     }
